@@ -82,6 +82,24 @@ func c11Check(r *core.Run, m map[string]string, order []string, repeats int) {
 	if order != nil {
 		entry = "ValuesToMapping"
 	}
+	if order != nil && within && len(order) > 0 {
+		// the same pairs in THIS wire order fed to the parser: whatever parses without error re-serialises
+		// to the bytes it was read from - on the first Data() call and on every later one
+		var wireM refmodel.Mapping
+		for _, k := range order {
+			wireM = append(wireM, refmodel.Pair{K: []byte(k), V: []byte(m[k])})
+		}
+		wire := refmodel.MappingBytes(wireM)
+		if pm, rem, errs := data.ReadMapping(wire); len(errs) == 0 {
+			r.Evaluations.Add(1)
+			d1 := append([]byte(nil), pm.Data()...)
+			d2 := pm.Data()
+			if len(rem) != 0 || !bytes.Equal(d1, wire) || !bytes.Equal(d2, wire) {
+				r.Violate("C11|parsed-without-error-reserialises-differently|data.ReadMapping[wire-order]", fmt.Sprintf("ReadMapping(%s) reports no error, Data() = %s, second Data() = %s, remainder %d", core.Hex(wire), core.Hex(d1), core.Hex(d2), len(rem)), cs)
+			}
+			r.Distinct([]byte("wire"), wire[:min(len(wire), 200)])
+		}
+	}
 	mp, err := build()
 	if !within {
 		if err == nil {
@@ -161,7 +179,7 @@ func permutations(xs []string, f func([]string)) {
 
 func runC11(r *core.Run) {
 	r.Level = "exploration"
-	r.Rule = "all Go maps with <= 3 entries over a 12-string menu (empty, 1-char, '=', ';', NUL, 0xff, 255 bytes, multi-byte UTF-8) through GoMapToMapping (repeated 4x/16x for iteration order) and through ValuesToMapping in EVERY insertion order (n<=3; n=4,5 for selected key sets); size-limit family with total payload 65,520..65,550 and strings of 254/255/256 bytes; byte-walk of ReadMapping. Oracle: bytes == independent reference encoding of the key-sorted map, size field, clean re-parse, same Go map, reject beyond limits. non-trivial = distinct encodings produced within limits and checked, plus distinct limit cases"
+	r.Rule = "all Go maps with <= 3 entries over a 12-string menu (empty, 1-char, '=', ';', NUL, 0xff, 255 bytes, multi-byte UTF-8) through GoMapToMapping (repeated 4x/16x for iteration order) and through ValuesToMapping in EVERY insertion order (n<=3; n=4,5 for selected key sets); size-limit family with total payload 65,520..65,550 and strings of 254/255/256 bytes; byte-walk of ReadMapping; every insertion order also as WIRE order through ReadMapping (error-free parse => Data() == input, twice). Oracle: bytes == independent reference encoding of the key-sorted map, size field, clean re-parse, same Go map, reject beyond limits. non-trivial = distinct encodings produced within limits and checked, plus distinct limit cases"
 	r.Assume("GoMapToMapping's dependence on Go map iteration order cannot be steered; every insertion order of the same pairs is enumerated through ValuesToMapping instead, repeats are a secondary guard")
 	n := len(c11Menu)
 	reps := 4
